@@ -1,0 +1,57 @@
+//go:build verif
+
+// Contracts for the acv verifier (/verif). Comment-only file: no executable code.
+
+package sqlparser
+
+// Literal kinds, from the property statement: string literals in any quoting form (StrVal, PgEscapeString)
+// and numeric literals (IntVal, FloatVal). HexNum, HexVal, BitVal are not named by the property and are
+// classified "not demanded"; ValArg is a placeholder already. The structural obligation below makes a new
+// ValType constant fail until it is classified here.
+//@ spec isLiteralKind(t ValType) bool = t == StrVal || t == IntVal || t == FloatVal || t == PgEscapeString
+//@ structural valtype-classified props C16 : enum-classified ValType StrVal IntVal FloatVal PgEscapeString HexNum HexVal ValArg BitVal
+
+//@ func (nz *normalizer) sqlToBindvar(node SQLNode) (bv *querypb.BindVariable)
+//@   props C16
+//@   noinline *
+//@   ensures literal-converted: typeis(node, *SQLVal) && isLiteralKind(unbox(node, *SQLVal).Type) && ret(sqltypes.NewValue)[1] == nil ==> bv != nil
+//@   ensures value-accepted: typeis(node, *SQLVal) && isLiteralKind(unbox(node, *SQLVal).Type) ==> ret(sqltypes.NewValue)[1] == nil
+//@   at call sqltypes.NewValue : assert sameslice(arg[1], unbox(node, *SQLVal).Val)
+
+//@ func (nz *normalizer) convertSQLVal(node *SQLVal)
+//@   props C16
+//@   noinline sqlToBindvar newName
+//@   ensures replaced: ret(normalizer.sqlToBindvar)[0] != nil ==> node.Type == ValArg && 1 <= len(node.Val) && node.Val[0] == ':'
+//@   at call normalizer.sqlToBindvar : assert typeis(arg[0], *SQLVal) && unbox(arg[0], *SQLVal) == node
+
+//@ func (nz *normalizer) convertSQLValDedup(node *SQLVal)
+//@   props C16
+//@   noinline sqlToBindvar newName convertSQLVal
+//@   ensures replaced: called(normalizer.sqlToBindvar) && ret(normalizer.sqlToBindvar)[0] != nil ==> node.Type == ValArg && 1 <= len(node.Val) && node.Val[0] == ':'
+//@   at call normalizer.sqlToBindvar : assert typeis(arg[0], *SQLVal) && unbox(arg[0], *SQLVal) == node
+//@   at call normalizer.convertSQLVal : assert arg[0] == node
+
+//@ func (nz *normalizer) WalkStatement(node SQLNode) (cont bool, err error)
+//@   props C16
+//@   noinline *
+//@   ensures every-value-visited: typeis(node, *SQLVal) ==> called(normalizer.convertSQLVal) && argof(normalizer.convertSQLVal)[0] == unbox(node, *SQLVal)
+//@   ensures descends: err == nil && (cont || typeis(node, *Select))
+
+//@ func (nz *normalizer) WalkSelect(node SQLNode) (cont bool, err error)
+//@   props C16
+//@   noinline *
+//@   ensures every-value-visited: typeis(node, *SQLVal) ==> called(normalizer.convertSQLValDedup) && argof(normalizer.convertSQLValDedup)[0] == unbox(node, *SQLVal)
+//@   ensures descends: err == nil && cont
+
+// The redacted text is printed after normalisation of the very statement that is printed; on a parse error all
+// three strings are empty.
+//@ func (p Parser) HandleRawSQLQuery(sql string) (normalizedQuery string, redactedQuery string, parsedQuery Statement, err error)
+//@   props C05 C16
+//@   noinline *
+//@   ensures parse-error-empty: err != nil ==> normalizedQuery == "" && redactedQuery == "" && parsedQuery == nil && err == ErrQuerySyntaxError
+//@   ensures redacted-after-normalize: err == nil ==> redactedQuery == ret(String#1)[0] && called(Normalize)
+//@   at call String#1 : assert called(Normalize) && arg[0] == argof(Normalize)[0]
+//@   at call Normalize : assert arg[0] == ret(Parser.Parse#0)[0]
+//@   at call Parser.Parse#0 : assert arg[0] == ret(strings.TrimSuffix)[0]
+//@   at call strings.TrimSuffix : assert arg[0] == ret(SplitMarginComments)[0] && arg[1] == ";"
+//@   at call SplitMarginComments : assert arg[0] == sql
